@@ -6,7 +6,7 @@ from vlib.ref import bech as R
 from vlib.util import call, expect_eq
 
 PROPERTY_ID = "C11"
-OPTIMIZED = ['reject']   # clauses run a second time under `python -O` (assert statements stripped)
+OPTIMIZED = ['reject', 'encode-decode']   # clauses run a second time under `python -O` (assert statements stripped)
 RULE = ("(version, length) pairs enumerated exhaustively with generated programs and HRPs; rejection "
         "strings built with the reference encoder (valid checksum for an arbitrary constant) so that one "
         "rule is violated at a time; error patterns of weight <= 4 over the 71 symbol positions of the "
